@@ -53,7 +53,9 @@ def typed_state(model, spec, problems=None):
         try:
             cls = type(s).__name__
             fields = {}
-            for f in list(s._properties.keys()):
+            decl = next((a for k, a in enumerate(spec['associations']) if assoc_class_name(spec, k) == cls), None)
+            names = [decl['leftField'], decl['rightField']] if decl else list(s._properties.keys())
+            for f in names:
                 fields[str(f)] = sorted(int(x.id) for x in getattr(s, f))
             ex = plain(getattr(s, 'extras', None)) or {}
             st['links'].append([cls, fields, ex])
